@@ -155,6 +155,9 @@ void trl(Ctx &c, bool near) {
     const bool iterative = near || ideal_port;
 
     Runner run(c, sc); run.create(); run.alloc();
+    // sets that go through the iterative solver (near-TRL, or TRL with an ideal port): a quarter get an iteration limit of
+    // 1..2, which the solver will usually exhaust -- the call must then FAIL with a convergence error, never report success
+    if (iterative && c.chance(1, 4)) { int lim = (int)c.range(1, 2); PBT_CHECK(c, vnacal_new_set_iteration_limit(run.vnp, lim) == 0, "C02.knobs", "set_iteration_limit failed"); c.label("TRL:tiny-iteration-limit"); }
     int idx = 0;
     for (auto &st : sc.stds) { int rc2 = run.add(st); PBT_CHECK(c, rc2 == 0, "C02.add_refused", "standard %d (%s) refused: %s", idx, st.describe().c_str(), run.log.text().c_str()); idx++; }
     run.log.clear(); errno = 0;
